@@ -669,3 +669,46 @@ Proof.
   - rewrite B. pose proof (iterations_pos c). destruct (iterations c) as [|n]; [lia|].
     replace (1 + S n - 1)%nat with (S n) by lia. reflexivity.
 Qed.
+
+(** an error result is always the error of the last attempt made, and every attempt failed *)
+Lemma retry_error_is_last c h e :
+  is_ok (r_out (retry c h e)) = false ->
+  exists n, calls (r_trace (retry c h e)) = seq 0 (S n)
+            /\ (forall j, (j <= n)%nat -> is_ok (h j) = false)
+            /\ snd (r_out (retry c h e)) = snd (h n) /\ snd (h n) <> 0%N.
+Proof.
+  intros Hf. destruct (retry_logic c h e) as [n [_ [Hc [[H1 _]|[_ [H2 H3]]]]]].
+  - rewrite Hf in H1. discriminate.
+  - exists n. repeat split; try assumption.
+    specialize (H2 n (le_n n)). unfold is_ok in H2. apply N.eqb_neq in H2. exact H2.
+Qed.
+
+(** the re-invocation of an iteration that left the select through the timer starts at the
+    instant the select returned *)
+Lemma loop_call_at c h sl : forall rem k cur now last,
+  let r := loop c h sl rem k cur now last in
+  Forall (fun it => w_ctx it = false -> exists te, In (ECall (w_k it) (w_twake it) te) (r_trace r)) (r_waits r).
+Proof.
+  induction rem as [|rem IH]; intros k cur now last; cbn zeta; [constructor|].
+  cbn [loop]. destruct (next_backoff c cur (s_elapsed (sl k)) (s_rnd (sl k))) as [wait cur'].
+  destruct (s_ctx (sl k)) eqn:E.
+  - constructor; [cbn; congruence|constructor].
+  - destruct (is_ok (h k)).
+    + constructor; [|constructor]. intros _. eexists. left. reflexivity.
+    + cbn [r_trace r_waits]. constructor.
+      * intros _. eexists. left. reflexivity.
+      * specialize (IH (S k) cur' (now + s_gap (sl k) + s_wake (sl k) + s_dur (sl k)) (h k)). cbn zeta in IH.
+        eapply Forall_impl; [|exact IH]. intros it H Hc. destruct (H Hc) as [te Hin].
+        exists te. right. apply in_or_app. right. exact Hin.
+Qed.
+
+Lemma retry_call_at c h e :
+  forall it, In it (r_waits (retry c h e)) -> w_ctx it = false ->
+  exists te, In (ECall (w_k it) (w_twake it) te) (r_trace (retry c h e)).
+Proof.
+  unfold retry. destruct (is_ok (h O)); [intros it []|]. cbn [r_waits r_trace].
+  intros it Hin Hc.
+  pose proof (loop_call_at c h (e_sel e) (iterations c) 1 (initial c) (t_reset e) (h O)) as F.
+  cbn zeta in F. rewrite Forall_forall in F. destruct (F it Hin Hc) as [te H].
+  exists te. right. exact H.
+Qed.
